@@ -54,7 +54,14 @@ U_INHERIT = [
     cdef("NoneNs", ns=None, modns="urn:mod", fields=[fdef("n", kind="attribute", ns="urn:at")]),
 ]
 
-HAND = {"witness": U_WITNESS, "xsi": U_XSI, "bad": U_BAD, "inherit": U_INHERIT}
+# U_WRAP: wrapped fields are matched by their wrapper names (5c6ca3a)
+U_WRAP = [
+    cdef("A", ns="urn:a", fields=[fdef("item", wrapper="Items"), fdef("n", kind="attribute")]),
+    cdef("B", ns="urn:a", fields=[fdef("item", wrapper="Items"), fdef("y"), fdef("c", cls=0, wrapper="Cs")]),
+    cdef("C", fields=[fdef("Items"), fdef("z", wrapper="")]),
+]
+
+HAND = {"witness": U_WITNESS, "xsi": U_XSI, "bad": U_BAD, "inherit": U_INHERIT, "wrap": U_WRAP}
 
 W = lambda loaded, mods=0: {"loaded": loaded, "mods": mods}  # noqa: E731
 
@@ -94,6 +101,9 @@ DOC_PB = [["enter", 0, 2], ["enter", 0, 0], ["leaf", 0], ["leave"], ["leave"]]
 DOC_HOLDER = [["enter", 0, 3], ["enter", 0, 2], ["leaf", 0], ["leaf", 2], ["leaf", 3], ["enter", 4, 0], ["leaf", 0], ["leave"],
               ["leave"], ["enter", 1, 0], ["leaf", 0], ["leaf", 1], ["leave"], ["leave"]]
 
+# B(item, y, c=A(item)) over U_WRAP
+DOC_WRAP = [["enter", 0, 1], ["leaf", 0], ["leaf", 1], ["enter", 2, 0], ["leaf", 0], ["leave"], ["leave"]]
+
 RESET = {"k": "reset"}
 BXC = {"k": "build_xsi_cache"}
 
@@ -115,6 +125,10 @@ POOLS = {
         op_build(2), op_build(2, "urn:p"), op_build(3), op_build(0, "urn:h"), op_build(0, "urn:f"),
         op_fetch(0, "urn:q", "Leaf"), op_fields(["r", "m"]), op_ser(DOC_HOLDER), op_q("find_type", "{urn:mod}NoneNs"),
     ],
+    "wrap": [
+        op_fields(["Items"]), op_fields(["Items", "y"]), op_fields(["item"]), op_lnm(["Items", "Cs"], 1), op_lnm([""], 2),
+        op_ser(DOC_WRAP), op_build(2, "urn:a"),
+    ],
 }
 
 
@@ -133,6 +147,7 @@ FNAMES = ["x", "y", "z", "c", "v", "t"]
 FNS = [None, None, None, "", "urn:a", "urn:f", "##any", "##other", "##local", "##targetNamespace",
        "##any ##local", "  urn:a\t ", "##local urn:a", "##targetNamespace ##local"]
 PNS = [None, None, "", "urn:a", "urn:b", "urn:p"]
+WRAPPERS = [None, None, None, None, None, "w", "", "x", "Items"]
 
 
 def rand_universe(rng, n=None, declared=False, clean=False):
@@ -159,11 +174,13 @@ def rand_universe(rng, n=None, declared=False, clean=False):
                 r = rng.random()
                 models = [j for j in range(i) if U[j]["model"]]
                 if r < 0.25 and models:
-                    fields.append(fdef(name, "element", rng.choice([None, None, "q"]), rng.choice(FNS[:6]), rng.choice(models)))
+                    fields.append(fdef(name, "element", rng.choice([None, None, "q"]), rng.choice(FNS[:6]), rng.choice(models),
+                                       wrapper=rng.choice(WRAPPERS)))
                 elif r < 0.6:
-                    fields.append(fdef(name, "element", rng.choice([None, None, "", "q"]), rng.choice(FNS)))
+                    fields.append(fdef(name, "element", rng.choice([None, None, "", "q"]), rng.choice(FNS),
+                                       wrapper=rng.choice(WRAPPERS)))
                 elif r < 0.75:
-                    fields.append(fdef(name, "attribute", None, rng.choice(FNS[:6])))
+                    fields.append(fdef(name, "attribute", None, rng.choice(FNS[:6]), wrapper=rng.choice(WRAPPERS[2:])))
                 elif r < 0.9:
                     fields.append(fdef(name, "wildcard", None, rng.choice(FNS)))
                 elif not text:
@@ -196,7 +213,7 @@ def rand_op(rng, universe, loaded, keys):
     n = len(universe)
     c = rng.randrange(loaded) if loaded and rng.random() < 0.95 else n + rng.randint(0, 2)
     q = rng.choice(keys) if keys and rng.random() < 0.8 else rng.choice(["Nope", "{urn:a}A", XS + "int", "A", "{urn:m}B"])
-    names = rng.sample(FNAMES + ["q"], rng.choice([0, 1, 1, 2, 2, 3]))
+    names = rng.sample(FNAMES + ["q", "w", "Items"], rng.choice([0, 1, 1, 2, 2, 3]))
     r = rng.random()
     if r < 0.2:
         return op_build(c, rng.choice(PNS))
